@@ -121,3 +121,126 @@ func VH_C02_norowid() {
 	}
 	sdb.VerifReach("end")
 }
+
+type vhW4 struct{ a, b, c, d int64 }
+
+func vhW4Is(r Row, w vhW4) bool {
+	if len(r) != 4 {
+		return false
+	}
+	a, ok1 := r[0].(int64)
+	b, ok2 := r[1].(int64)
+	c, ok3 := r[2].(int64)
+	d, ok4 := r[3].(int64)
+	return ok1 && ok2 && ok3 && ok4 && a == w.a && b == w.b && c == w.c && d == w.d
+}
+
+// Composite primary key, and a secondary index that already contains ONE of the
+// key columns: the index entry is (index columns, then only the key columns it
+// lacks), so the positions of the key columns inside the entry are not simply
+// "after the index columns".
+//verif:prop C02,C03,C01
+//verif:shards 7
+//verif:bounds WITHOUT ROWID table w(a,b,c,d, PRIMARY KEY(a,b)) with index wi on (c,a) [entries (c,a,b)] and index wb on (b) [entries (b,a)]: 2 rows, both index orders, single-leaf trees; values any int64 consistent with the orders; operations Select, PKSelect with 1- and 2-column keys, IndexedSelect and IndexedSelectEq through either index with 1- and 2-column keys
+func VH_C03_norowid_composite() {
+	op := sdb.VerifShard(7)
+	f := sdb.VerifNewFile(512)
+	troot, iroot, broot := f.AddPage(), f.AddPage(), f.AddPage()
+	f.Master([]sdb.VerifMasterRow{
+		{Typ: "table", Name: "w", Tbl: "w", Root: troot, SQL: "CREATE TABLE w (a, b, c, d, PRIMARY KEY (a, b)) WITHOUT ROWID"},
+		{Typ: "index", Name: "wi", Tbl: "w", Root: iroot, SQL: "CREATE INDEX wi ON w (c, a)"},
+		{Typ: "index", Name: "wb", Tbl: "w", Root: broot, SQL: "CREATE INDEX wb ON w (b)"},
+	})
+	rows := [2]vhW4{
+		{sdb.VerifInt64(), sdb.VerifInt64(), sdb.VerifInt64(), sdb.VerifInt64()},
+		{sdb.VerifInt64(), sdb.VerifInt64(), sdb.VerifInt64(), sdb.VerifInt64()},
+	}
+	r0, r1 := rows[0], rows[1]
+	// table order: (a, b) ascending, unique
+	sdb.VerifAssume(sdb.VerifOr(r0.a < r1.a, sdb.VerifAnd(r0.a == r1.a, r0.b < r1.b)))
+	// index wi order over (c, a, b); index wb order over (b, a)
+	iSwap := sdb.VerifChoice(2) == 1
+	bSwap := sdb.VerifChoice(2) == 1
+	lessI := sdb.VerifOr(r0.c < r1.c, sdb.VerifAnd(r0.c == r1.c, sdb.VerifOr(r0.a < r1.a, sdb.VerifAnd(r0.a == r1.a, r0.b < r1.b))))
+	lessB := sdb.VerifOr(r0.b < r1.b, sdb.VerifAnd(r0.b == r1.b, r0.a < r1.a))
+	sdb.VerifAssume(lessI != iSwap)
+	sdb.VerifAssume(lessB != bSwap)
+	iOrd, bOrd := [2]int{0, 1}, [2]int{0, 1}
+	if iSwap {
+		iOrd = [2]int{1, 0}
+	}
+	if bSwap {
+		bOrd = [2]int{1, 0}
+	}
+	var tp, ip, bp [][]byte
+	for i := 0; i < 2; i++ {
+		r := rows[i]
+		tp = append(tp, sdb.VerifRecord(r.a, r.b, r.c, r.d)) // key columns first, then the rest
+		q := rows[iOrd[i]]
+		ip = append(ip, sdb.VerifRecord(q.c, q.a, q.b)) // (c, a) + the missing key column b
+		p := rows[bOrd[i]]
+		bp = append(bp, sdb.VerifRecord(p.b, p.a)) // (b) + the missing key column a
+	}
+	f.IndexLeaf(troot, tp)
+	f.IndexLeaf(iroot, ip)
+	f.IndexLeaf(broot, bp)
+	h, err := f.Open()
+	sdb.VerifNoErr(err, "valid file opens")
+	db := &DB{db: h}
+	var got []Row
+	cb := func(r Row) { got = append(got, r) }
+	var want []vhW4
+	k1, k2 := sdb.VerifInt64(), sdb.VerifInt64()
+	two := sdb.VerifChoice(2) == 1
+	switch op {
+	case 0:
+		err = db.Select("w", cb, "a", "b", "c", "d")
+		want = rows[:]
+	case 1:
+		key := Key{k1}
+		if two {
+			key = Key{k1, k2}
+		}
+		err = db.PKSelect("w", key, cb, "a", "b", "c", "d")
+		for _, r := range rows {
+			if r.a == k1 && (!two || r.b == k2) {
+				want = append(want, r)
+			}
+		}
+	case 2:
+		err = db.IndexedSelect("w", "wi", cb, "a", "b", "c", "d")
+		want = []vhW4{rows[iOrd[0]], rows[iOrd[1]]}
+	case 3:
+		key := Key{k1}
+		if two {
+			key = Key{k1, k2}
+		}
+		err = db.IndexedSelectEq("w", "wi", key, cb, "a", "b", "c", "d")
+		for _, i := range iOrd {
+			if r := rows[i]; r.c == k1 && (!two || r.a == k2) {
+				want = append(want, r)
+			}
+		}
+	case 4:
+		err = db.IndexedSelect("w", "wb", cb, "a", "b", "c", "d")
+		want = []vhW4{rows[bOrd[0]], rows[bOrd[1]]}
+	case 5:
+		err = db.IndexedSelectEq("w", "wb", Key{k1}, cb, "a", "b", "c", "d")
+		for _, i := range bOrd {
+			if r := rows[i]; r.b == k1 {
+				want = append(want, r)
+			}
+		}
+	case 6:
+		err = db.IndexedSelectEq("w", "wi", Key{}, cb, "a", "b", "c", "d")
+		want = []vhW4{rows[iOrd[0]], rows[iOrd[1]]}
+	}
+	sdb.VerifNoErr(err, "operation on a WITHOUT ROWID table with a composite key succeeds")
+	sdb.VerifAssert(len(got) == len(want), "exactly the expected rows")
+	if len(got) == len(want) {
+		for i := range got {
+			sdb.VerifAssert(vhW4Is(got[i], want[i]), "rows in the expected order with the table's values")
+		}
+	}
+	sdb.VerifReach("end")
+}
